@@ -249,11 +249,13 @@ EDS_NAME_CHARS = "ABCDEFGHIJKLMNOPQRSTUVWXYZabcdefghijklmnopqrstuvwxyz0123456789
 def eds_value(rng, dt):
     """Values that survive a text representation unambiguously."""
     if dt in R.STRINGS:
+        if rng.random() < 0.12:
+            return ""                       # a zero-length value is a value, not "no value"
         n = rng.randint(1, 20)
         s = "".join(rng.choice("ABCDEFGHIJKLMNOPQRSTUVWXYZabcdefghijklmnopqrstuvwxyz0123456789 _-%=+") for _ in range(n)).strip()
         return s or "x"
     if dt in R.BLOBS:
-        return bytes(rng.getrandbits(8) for _ in range(rng.randint(1, 12)))
+        return bytes(rng.getrandbits(8) for _ in range(rng.choice([0, 1, 2, 5, 12, rng.randint(1, 12)])))
     return random_value(rng, dt)
 
 
